@@ -74,6 +74,12 @@ func vC08ValidateBlock(chain *Blockchain, checkState *appstate.AppState, block *
 func vC08ValidateCert(chain *Blockchain, prevBlock *types.Header, block *types.Header, cert *types.BlockCert, vc *validators.ValidatorsCache, cache map[string]common.Address) error {
 	i := vC08.indexHeader(block)
 	vAssert(i >= 0 && cert == vC08.bundles[i].Cert, "certificate i is checked against block i")
+	wantPrev := vC08.start
+	if i > 0 {
+		wantPrev = vC08.bundles[i-1].Block.Header
+	}
+	vAssert(prevBlock == wantPrev, "certificate i is checked on top of block i-1")
+	vAssert(vc == vC08.checkState.ValidatorsCache, "certificates are judged by the committee of the FORK's state (check state), not of the node's current head")
 	vC08.certTried[i] = true
 	if !vC08.certOK[i] {
 		return errors.New("invalid certificate")
@@ -112,7 +118,7 @@ func H_C08a() {
 	if vThorough() {
 		n = 1 + vChoice("forkLengthT", 4)
 	}
-	e := &vC08Env{start: &types.Header{EmptyBlockHeader: &types.EmptyBlockHeader{Height: 7}}, checkState: &appstate.AppState{}}
+	e := &vC08Env{start: &types.Header{EmptyBlockHeader: &types.EmptyBlockHeader{Height: 7}}, checkState: &appstate.AppState{ValidatorsCache: &validators.ValidatorsCache{}}}
 	for i := 0; i < n; i++ {
 		flags := types.BlockFlag(vU32("flags"))
 		var h *types.Header
@@ -128,7 +134,7 @@ func H_C08a() {
 	}
 	e.validated, e.certTried, e.committed = make([]bool, n), make([]bool, n), make([]bool, n)
 	vC08 = e
-	chain := &Blockchain{appState: &appstate.AppState{}}
+	chain := &Blockchain{appState: &appstate.AppState{ValidatorsCache: &validators.ValidatorsCache{}}}
 
 	err := chain.ValidateSubChain(7, e.bundles)
 
